@@ -197,6 +197,8 @@ def op_table(api):
          lambda d, t, s: b.modified_helmholtz.single_layer(d, d, t, w / s, assembler="dense"), "scalar", 3),
         ("modified_helmholtz.adjoint_double_layer",
          lambda d, t, s: b.modified_helmholtz.adjoint_double_layer(d, d, t, w / s, assembler="dense"), "scalar", 2),
+        ("modified_helmholtz.hypersingular",
+         lambda d, t, s: b.modified_helmholtz.hypersingular(d, d, t, w / s, assembler="dense"), "p1", 1),
         ("maxwell.electric_field", lambda d, t, s: b.maxwell.electric_field(d, d, t, k / s, assembler="dense"), "maxwell", 2),
         ("maxwell.magnetic_field", lambda d, t, s: b.maxwell.magnetic_field(d, d, t, k / s, assembler="dense"), "maxwell", 2),
         ("sparse.identity", lambda d, t, s: b.sparse.identity(d, d, t), "any", 2),
@@ -227,6 +229,51 @@ def random_rotation(rng):
     if np.linalg.det(q) < 0:
         q[:, 0] = -q[:, 0]
     return q
+
+
+def flip_block(api, strength, out):
+    """Deterministic in every check, for EVERY dense operator (all three hypersingular operators, V, K, K' of the three families,
+    both Maxwell operators): swapped_normals on one domain of a fixed two-domain closed grid versus the grid with the elements
+    of that domain physically reversed.  The regular part is exact; the singular part changes its Duffy parametrisation, so the
+    two matrices agree up to singular-quadrature error at the fixed orders (3, 3) on this fixed, mildly perturbed octahedron:
+    measured <= FLIP_MEASURED on the unchanged tree, bound FLIP_BOUND = 10x that; a wrong normal / sign / multiplier gives O(1).
+    quick: assembler loops through .py_func with the library's own kernels; thorough: compiled code."""
+    quick = strength == "quick"
+    fixed = np.random.default_rng(20260923)            # geometry independent of VERIF_SEED
+    verts = np.array(C.OCTA_V, dtype=float).T + fixed.integers(-2, 3, size=(3, 6)) / 32.0
+    grid0 = api.Grid(np.ascontiguousarray(verts), np.array(C.OCTA_E, dtype="uint32").T.copy(),
+                     np.array([1, 1, 1, 1, 2, 2, 2, 2], dtype="uint32"))
+    grid1, pi, origin = transform_grid(grid0, fixed, "flip", 2)
+    C.set_orders(3, 3)
+    nel = grid0.number_of_elements
+    with C.Patched(None, jit=not quick), np.errstate(all="ignore"):
+        for name, mk, cls, _ in op_table(api):
+            if name.startswith("sparse") or name in ("helmholtz.single_layer", "modified_helmholtz.single_layer"):
+                continue          # (the single layer kernels do not see the normals; one of them is kept)
+            dk, tk = {"scalar": ("P1", "DP1"), "p1": ("P1", "P1"), "maxwell": ("RWG", "SNC")}[cls]
+            try:
+                sd0, st0 = C.make_space(grid0, dk, {"swapped_normals": [2]}), C.make_space(grid0, tk, {"swapped_normals": [2]})
+                sd1, st1 = C.make_space(grid1, dk, {}), C.make_space(grid1, tk, {})
+                a0, a1 = dense(mk(sd0, st0, 1.0)), dense(mk(sd1, st1, 1.0))
+                rt, sgt, _, okt = dof_maps(st0, st1, pi, [local_map(tk, origin[e]) for e in range(nel)])
+                rd, sgd, _, okd = dof_maps(sd0, sd1, pi, [local_map(dk, origin[e]) for e in range(nel)])
+            except Exception as e:
+                out["failures"].append({"signature": "C03:%s raises %s" % (name, type(e).__name__), "what": repr(e),
+                                        "data": {"block": "flip"}})
+                continue
+            err = relation_error(a0, a1, rt, rd, sgt, sgd) if (okt and okd) else 1.0
+            out["worst"]["flip_fixed:%s" % name] = err
+            out["evaluations"] += 1
+            if not err <= FLIP_BOUND:
+                out["failures"].append({
+                    "signature": "C03:flip equivariance of %s" % name,
+                    "what": "swapped_normals=[2] vs physically reversed elements of domain 2 on the fixed octahedron: relative "
+                            "difference %.3e (bound %.1e = 10 x the singular-quadrature difference measured on the unchanged tree)"
+                            % (err, FLIP_BOUND), "data": {"block": "flip", "operator": name, "err": err}})
+
+
+FLIP_MEASURED = 1.8e-3      # worst operator (helmholtz.single_layer / maxwell.electric_field) at orders (3, 3)
+FLIP_BOUND = 2.0e-2
 
 
 def barycentric_block(api, rng, strength, out):
@@ -432,12 +479,14 @@ def run_search(cfg):
                     # difference must decay under order refinement (geometric convergence of the Sauter-Schwab rules; on
                     # sharp dihedral angles the rate is slow: 5e-2 -> 1e-2 -> 4e-3 was observed on a distorted tetrahedron
                     # with a correct tree).  A wrong vertex correspondence leaves a bias that does not decay.
-                    bad = not (errs[-1] <= 1e-9 or errs[-1] <= 0.5 * errs[0])
+                    # an O(1) discrepancy is never excused by decay: the difference at the highest order must be small
+                    bad = not (errs[-1] <= 1e-9 or (errs[-1] <= 0.5 * errs[0] and errs[-1] <= 5e-2))
                     msg = "relative errors %s at singular orders 3,5,7" % (["%.2e" % x for x in errs],)
                 if bad:
                     fails.append({"signature": "C03:%s equivariance of %s" % (mode, name),
                                   "what": "%s on %s with %s/%s" % (msg, gname, tk, dk),
                                   "data": {"grid": gname, "dom": [dk, opts_d], "dual": [tk, opts_t], "errs": errs}})
+    flip_block(api, strength, out)
     with C.PyFuncMode(strength == "quick"):
         barycentric_block(api, rng, strength, out)
     out["wall"] = time.time() - t0
